@@ -35,8 +35,10 @@ def main():
         targets.append('theories/Properties/%s.vo' % m.ID)
         for x in list(getattr(m, 'COQ_EXTRA', [])) + ([m.RUN_MODULE] if getattr(m, 'RUN_MODULE', None) else []):
             targets.append('theories/%s.vo' % x.replace('.', '/'))
-    ok, out = P.coq_make(sorted(set(targets)), timeout=3000)
+    ok, out = P.coq_make(sorted(set(targets)) + ['-k'], timeout=3000)
     if not ok:
+        # keep going: one property whose proofs do not build must not take the others down;
+        # its own check reports the broken obligation
         print(out[-5000:])
         rc = 1
     for m in mods:
@@ -65,5 +67,5 @@ def main():
             if not ok:
                 print(out[-5000:])
                 rc = 1
-    print('setup', 'ok' if rc == 0 else 'FAILED')
-    return rc
+    print('setup', 'ok' if rc == 0 else 'finished WITH FAILURES (see above); the affected checks will report them')
+    return 0
